@@ -1402,7 +1402,12 @@ impl<'comments> Formatter<'comments> {
             UntypedExpr::PipeLine { .. }
             | UntypedExpr::BinOp { .. }
             | UntypedExpr::UnOp { .. }
-            | UntypedExpr::TraceIfFalse { .. } => wrap_args(vec![(doc, false)]).group(),
+            | UntypedExpr::TraceIfFalse { .. } => break_("(", "(")
+                .append(doc)
+                .nest(INDENT)
+                .append(break_("", ""))
+                .append(")")
+                .group(),
             _ => doc,
         }
     }
